@@ -41,10 +41,15 @@ def main():
     repo_head = subprocess.run("git -C /repo log --format=%h -1", shell=True, capture_output=True, text=True).stdout.strip()
     verif_head = subprocess.run("git -C /verif log --format=%h -1", shell=True, capture_output=True, text=True).stdout.strip()
     rows = []
-    for out in sorted(glob.glob("/tmp/seed-C??-out")):
-        pid = os.path.basename(out)[5:8]
+    prefix = os.environ.get("SEED_PREFIX", "seed")
+    # the second round of changes (prefix s2) is stored as <ID>-3 and <ID>-4
+    shift = 2 if prefix == "s2" else 0
+    first_file = f"{ROOT}/FIRST_ROUND.txt" if shift == 0 else f"{ROOT}/SECOND_ROUND.txt"
+    first = parse_summary(first_file)
+    for out in sorted(glob.glob(f"/tmp/{prefix}-C??-out")):
+        pid = os.path.basename(out)[len(prefix) + 1:len(prefix) + 4]
         for n in ("1", "2"):
-            seed = f"{pid}-{n}"
+            seed = f"{pid}-{int(n) + shift}"
             patch = f"{out}/patch{n}.diff"
             meta_path = f"{out}/meta{n}.json"
             if not (os.path.exists(patch) and os.path.exists(meta_path)):
@@ -77,8 +82,9 @@ def main():
                 else:
                     shutil.copy(f, dest)
             meta = json.load(open(meta_path))
-            fr = first.get(seed, {})
-            fi = final.get(seed)
+            # (summaries are written with the author's numbering 1/2)
+            fr = first.get(f"{pid}-{n}", {})
+            fi = final.get(f"{pid}-{n}") if shift == 0 else final.get(f"{pid}-{n}")
             own_first = pid in fr
             meta.update({
                 "property": pid,
